@@ -9,6 +9,7 @@ ENGINES = {
     "B": {"name": "health-sim", "pkg": "./bfe_balance/backend", "desc": "real BfeBackend + UpdateStatus + check() goroutine (a scheduler task via the go-statement rewrite) probing through simnet with seeded verdicts on the fake clock"},
     "C": {"name": "node-sim", "pkg": "./bfe_server", "desc": "whole BfeServer (NewBfeServer/InitHttp/InitDataLoad/modules) built from generated config files, real conn.serve/ReverseProxy/bfe_http.Transport, scripted clients and backends on simnet"},
     "D2": {"name": "http1-codec-sim", "pkg": "./bfe_http", "desc": "real bfe_http chunked reader/writer and ReadRequest fed through seeded segmenting / failing readers (simio), against the href RFC 7230 reference parsers"},
+    "D3": {"name": "proxyproto-sim", "pkg": "./bfe_proxy", "desc": "real bfe_proxy.Conn over a simulated connection: a scripted sender (spec-conformant v1/v2 headers, malformed ones, none) with seeded segmentation, stalls past the header timeout on the fake clock and cuts"},
     "A": {"name": "balancer-sim", "pkg": "./bfe_balance", "desc": "real bal_table/bal_gslb/bal_slb/backend under the lock-granular scheduler, fake clock, configs through the real file loaders"},
 }
 
@@ -89,6 +90,12 @@ PROPS["C48"] = dict(expect_probes=["c48_close_checked", "c48_response_checked", 
     level_text="Whole-node simulation with generated filter chains (0-3 filters per callback point, a verdict per filter and request) registered through the real BfeCallbacks.AddFilter at HandleBeforeLocation / FoundProduct / AfterLocation / Forward / ReadResponse / RequestFinish. Every filter execution is logged; oracle: filters run in registration order up to and including the first non-continue verdict and none after (per pass); close => no bytes for that request and the connection ends; response / redirect => exactly that response and zero backend contacts; finish => a reply and then the connection closes.",
     level_note="Trusted: simrt/simnet, href response parser, the generated filters (they log themselves). programs = filter chains; the simulation contributes the wire, keep-alive sequencing and backend-contact observation.",
     technique="deterministic simulation: whole-node run with generated module filter chains, execution-order log + wire-level oracle")
+
+PROPS["C46"] = dict(expect_probes=["valid_ok", "malformed_rejected", "header_timeout", "cut_header"], engine="D3", runs=(8000, 400000), modes=[("nofault", 0.25), ("swarm", 0.75)], race=False,
+    level="exploration", design="§6 Engine D / C46",
+    level_text="A sender task writes a header built from the PROXY protocol specification (v1 TCP4/TCP6/UNKNOWN, v2 PROXY/LOCAL with TCP4/TCP6/UNSPEC blocks and TLVs incl. NOOP padding), a malformed one, or none, followed by a payload, over a simulated connection with seeded segmentation, a stall that may exceed the header timeout (fake clock) or a cut inside the header; a reader task reads through the real bfe_proxy.Conn. Oracle: advertised addresses (socket peer for LOCAL/UNKNOWN), payload identical and complete, malformed/truncated => error and zero payload bytes, timeout => error.",
+    level_note="Trusted: simrt/simnet, the header builders (written from the specification, independent of bfe_proxy's writer). UDP and UNIX families are not generated (the statement does not say what to report for them).",
+    technique="deterministic simulation: two-party exchange over a simulated connection with seeded segmentation, stalls against a simulated clock and cuts; spec-derived sender as oracle")
 
 NOT_APPLICABLE = {
     "C10": "pure function of (host table, VIP table, Host header): no goroutine, clock, stream, file or peer takes part; the only thing to vary is input, which is generation, not simulation (DESIGN §7)",
